@@ -282,6 +282,91 @@ func scratchBase() string {
 
 var c19QuickKinds = []int{0, 1, 2, 4, 6, 8, 9, 10, 11, 12, 13}
 
+// c19LargeFeed builds a valid feed of at least size bytes (many trip updates).
+var c19LargeCache = map[int][]byte{}
+
+func c19LargeFeed(size int) []byte {
+	if b, ok := c19LargeCache[size]; ok {
+		return b
+	}
+	ts := uint64(1700000060)
+	m := newFeed(&ts)
+	n := size/50 + 1
+	for i := 0; i < n; i++ {
+		td := &gtfsrt.TripDescriptor{TripId: sp(fmt.Sprintf("%06d_L..N%04d", i%600000, i)), RouteId: sp("L"), StartDate: sp("20231114")}
+		m.Entity = append(m.Entity, &gtfsrt.FeedEntity{Id: sp(fmt.Sprintf("e%d", i)), TripUpdate: &gtfsrt.TripUpdate{Trip: td,
+			StopTimeUpdate: []*gtfsrt.TripUpdate_StopTimeUpdate{{StopId: sp("L01N"), Arrival: &gtfsrt.TripUpdate_StopTimeEvent{Time: cp2(int64(ts) + 100)}}}}})
+	}
+	b := marshalFeed(m)
+	if len(b) < size {
+		harnessBug("large feed too small: %d < %d", len(b), size)
+	}
+	c19LargeCache[size] = b
+	return b
+}
+
+// c19Large: a directory with a small good file, a LARGE good file and another small good file;
+// sizes straddle common buffer and limit sizes. Every file must be yielded, in name order.
+func c19Large(c *Ctx) {
+	size := []int{70 << 10, 1<<20 + 4096, 4<<20 + 4096, 17 << 20}[c.Free("large_file_size", 4)]
+	pos := c.Free("large_file_position", 3)
+	dir, err := os.MkdirTemp(scratchBase(), "verifc19L")
+	if err != nil {
+		harnessBug("mkdtemp: %v", err)
+	}
+	defer os.RemoveAll(dir)
+	names := []string{"a", "b", "c"}
+	for i, n := range names {
+		content := c19Good()[i%3]
+		if i == pos {
+			content = c19LargeFeed(size)
+		}
+		if err := os.WriteFile(filepath.Join(dir, n), content, 0644); err != nil {
+			harnessBug("write: %v", err)
+		}
+	}
+	desc := fmt.Sprintf("files a,b,c; file %s is a valid feed of %d bytes", names[pos], len(c19LargeFeed(size)))
+	c.Input(hash64(desc), true, func() string { return desc })
+	var src *journal.DirectoryGtfsrtSource
+	if !guardSig(c, "NewDirectoryGtfsrtSource", func() { src, err = journal.NewDirectoryGtfsrtSource(dir) }) || err != nil {
+		c.Fail("source-construction-failed", "%v", err)
+		return
+	}
+	var got []*gtfs.Realtime
+	if !guardSig(c, "DirectoryGtfsrtSource.Next", func() {
+		for i := 0; i < 6; i++ {
+			r := src.Next()
+			if r == nil {
+				return
+			}
+			got = append(got, r)
+		}
+	}) {
+		return
+	}
+	c.Steps(4)
+	var want []*gtfs.Realtime
+	for _, n := range names {
+		b, _ := os.ReadFile(filepath.Join(dir, n))
+		r, err := gtfs.ParseRealtime(b, c19Opts())
+		if err != nil {
+			harnessBug("large feed does not parse: %v", err)
+		}
+		want = append(want, r)
+	}
+	if len(got) != len(want) {
+		c.Fail("directory-source:feeds-lost", "%s: Next yielded %d feeds, want %d", desc, len(got), len(want))
+		return
+	}
+	for i := range want {
+		if len(got[i].Trips) != len(want[i].Trips) || !got[i].CreatedAt.Equal(want[i].CreatedAt) {
+			c.Fail("directory-source:sequence-differs", "%s: feed %d has %d trips (created %s), want %d (%s)", desc, i, len(got[i].Trips), fmtTime(got[i].CreatedAt), len(want[i].Trips), fmtTime(want[i].CreatedAt))
+		}
+	}
+	c.Outcome(fmt.Sprint(len(got), size, pos))
+	c.Witness("large_file_in_directory")
+}
+
 func sortedJoin(l []string) string {
 	s := append([]string{}, l...)
 	sort.Strings(s)
@@ -292,14 +377,14 @@ func init() {
 	register(&Check{
 		ID:    "C19",
 		Level: "fault_enumeration",
-		Rule: "every assignment of {absent, good1, good2, good3, empty, cut-in-header, cut-in-entity, cut-last-byte, corrupt, sub-directory, vanishes after listing, replaced by a directory after listing, symlink to a good file, dangling symlink} to the names 10, 9, B, a, é (thorough: 14^5 = 537 824 directories; quick: the first 4 names, 14^4 = 38 416) - x 2 creation orders, on a real temporary directory; " +
+		Rule: "every assignment of {absent, good1, good2, good3, empty, cut-in-header, cut-in-entity, cut-last-byte, corrupt, sub-directory, vanishes after listing, replaced by a directory after listing, symlink to a good file, dangling symlink} to the names 10, 9, B, a, é (thorough: 14^5 = 537 824 directories; quick: the first 4 names, 14^4 = 38 416) - x 2 creation orders, on a real temporary directory; plus directories in which one of three good files is 70 KiB / 1 MiB / 4 MiB / 17 MiB large, at each position; " +
 			"non-trivial = distinct directories with >= 2 entries; oracle = independent parses of the readable, parseable entries in byte order of their names, nil afterwards, and equality of the journals",
 		Assumptions: []string{"unreadable means: is a directory or no longer exists (the checks run as root, so permission faults cannot be produced)", "whether a damaged file still parses is decided by parsing its bytes independently"},
 		Scenarios: func(tier string) []*Scenario {
 			if tier == "thorough" {
-				return []*Scenario{{Name: "directories-5-names-14-kinds", Bound: -1, Run: c19Harness(5, true)}}
+				return []*Scenario{{Name: "directories-5-names-14-kinds", Bound: -1, Run: c19Harness(5, true)}, {Name: "large-files", Bound: -1, Run: c19Large}}
 			}
-			return []*Scenario{{Name: "directories-4-names-14-kinds", Bound: -1, Run: c19Harness(4, true)}}
+			return []*Scenario{{Name: "directories-4-names-14-kinds", Bound: -1, Run: c19Harness(4, true)}, {Name: "large-files", Bound: -1, Run: c19Large}}
 		},
 	})
 }
